@@ -68,7 +68,8 @@ def check_metrics(prog, rep):
             rep.add('V1', f, entry, '%s%s' % (name, tuple(f.params)), f.node.lineno, False,
                     'the public signature is (x1, x2, y1, y2)')
             continue
-        k = interpret(prog, f)
+        # range checks moved into a jitted helper that raises are read in place
+        k = interpret(prog, f, inline_procedures=True, inline_all=lambda g_: g_.jit is not None and prog.same_unit(f.module, g_.module))
         got = k.returns[-1][0] if k.returns else None
         want = sp.expr(text)
         ok = isinstance(got, Rat) and approx_equal(got, want, tol=0)
@@ -96,7 +97,9 @@ def check_metrics(prog, rep):
                             env[Sym(p)] = Fr(v)
                             raised = any(all(eval_cond_full(g, env) for g in gs) for gs, node in k.raises)
                             returned = any(all(eval_cond_full(g, env) for g in gs) for val_, gs in k.returns)
-                            res.append((v, raised and not returned, abs(v) > lim))
+                            # (a raise whose conditions hold is taken: the checks come first - a return in front of them is a
+                            # second result path and refuted by the rule below)
+                            res.append((v, raised, abs(v) > lim))
                         bad = [(str(v), r) for v, r, w in res if r != w]
                         ok = not bad
                         why = 'rejected for %s' % [str(v) for v, r, w in res if r] + ('; wrong for %s' % bad if bad else '')
@@ -696,7 +699,7 @@ def check_kernels(prog, rep):
     okx = len(xs) == 1 and xs[0][1][0] == [-W, W, two * W + one]
     oky = len(ys) == 1 and ys[0][1][0] == [-H, H, two * H + one]
     rep.add('E1', f, entry, 'grids %s' % {n: ([show(a_, 20) for a_ in (g[0] or [])], 'column vector' if g[1] else 'row vector') for n, g in grids.items()},
-            f.node.lineno, okx and oky,
+            f.node.lineno, (okx and oky) if grids else None,
             'x must run over the columns as linspace(-half_w, half_w, 2*half_w+1) and y over the rows (column vector) as '
             'linspace(-half_h, half_h, 2*half_h+1): symmetric odd grids, width with the column axis')
     if not (okx and oky):
